@@ -19,7 +19,7 @@ class S(vlib.Spec):
         8: "fmt_ok fails on a double text strconv produced",
         2: "DumpIDL failed or the trimmer did not write the file",
         3: "the parser rejects the dumped text",
-        4: "an AST with nothing to print is dumped as the empty text, which the parser rejects",
+        4: "an AST with nothing to print is dumped as the empty text, which the parser rejects (fixed by 6a3edb3)",
         7: "the semantic pass accepts the original program and rejects the dumped one",
         10: "includes differ", 11: "cpp_include differ", 12: "namespaces differ",
         13: "an annotation key/value list differs", 14: "definitions differ (number, kind, order, name)",
